@@ -1,4 +1,4 @@
-(** Model of src/epd7in5_v2/mod.rs — STUB, not yet transcribed. *)
+(** Model of src/epd7in5_v2/mod.rs (7.5 inch v2/v3, black and white). *)
 From Coq Require Import List NArith Bool.
 From EPD Require Import Iface Ops Drv.Luts.
 Import ListNotations.
@@ -8,11 +8,82 @@ Open Scope m_scope.
 Module Epd7in5_v2.
 Definition WIDTH : N := 800.
 Definition HEIGHT : N := 480.
+Definition IS_BUSY_LOW := true.
 
-Definition init : M unit := ret tt.
+(** interface.wait_until_idle_with_cmd(spi, delay, IS_BUSY_LOW, Command::GetStatus) *)
+Definition wait_until_idle : M unit := wait_idle_cmd IS_BUSY_LOW 0x71.
 
-Definition exec (k : N) (o : op) : option (M rval) := None.
+Definition send_resolution : M unit :=
+  let w := WIDTH in
+  let h := HEIGHT in
+  cmd 0x61 ;;
+  data [u8 (shr w 8)] ;;
+  data [u8 w] ;;
+  data [u8 (shr h 8)] ;;
+  data [u8 h].
+
+Definition init : M unit :=
+  reset 10000 2000 ;;
+  cmd_with_data 0x01 [0x07; 0x07; 0x3f; 0x3f] ;;
+  cmd_with_data 0x06 [0x17; 0x17; 0x28; 0x17] ;;
+  cmd 0x04 ;;
+  delay_ms 100 ;;
+  wait_until_idle ;;
+  cmd_with_data 0x00 [0x1F] ;;
+  cmd_with_data 0x61 [0x03; 0x20; 0x01; 0xE0] ;;
+  cmd_with_data 0x15 [0x00] ;;
+  cmd_with_data 0x50 [0x10; 0x07] ;;
+  cmd_with_data 0x60 [0x22].
+
+Definition sleep : M unit :=
+  wait_until_idle ;;
+  cmd 0x02 ;;
+  wait_until_idle ;;
+  cmd_with_data 0x07 [0xA5].
+
+Definition update_frame (k len : N) : M unit :=
+  wait_until_idle ;;
+  cmd_with_data_e 0x13 (DArg k 0 0 len).
+
+Definition update_partial_frame (k len x y width height : N) : M unit := panic.
+
+Definition display_frame : M unit :=
+  wait_until_idle ;;
+  cmd 0x12.
+
+Definition update_and_display_frame (k len : N) : M unit :=
+  update_frame k len ;;
+  cmd 0x12.
+
+Definition clear_frame : M unit :=
+  wait_until_idle ;;
+  send_resolution ;;
+  cmd 0x10 ;;
+  data_x_times 0x00 (WIDTH / 8 * HEIGHT) ;;
+  cmd 0x13 ;;
+  data_x_times 0x00 (WIDTH / 8 * HEIGHT) ;;
+  cmd 0x12.
+
+Definition set_lut (r : option N) : M unit := panic.
+
+Definition exec (k : N) (o : op) : option (M rval) :=
+  match o with
+  | OSleep => unit_ sleep
+  | OWakeUp => unit_ init
+  | OSetBg c => unit_ (modify (set_bg c))
+  | OGetBg => Some (s <- get ;; ret (RColor (bg s)))
+  | OWidth => Some (ret (RNum WIDTH))
+  | OHeight => Some (ret (RNum HEIGHT))
+  | OUpdateFrame len => unit_ (update_frame k len)
+  | OUpdatePartial len x y w h => unit_ (update_partial_frame k len x y w h)
+  | ODisplay => unit_ display_frame
+  | OUpdateAndDisplay len => unit_ (update_and_display_frame k len)
+  | OClear => unit_ clear_frame
+  | OSetLut r => unit_ (set_lut r)
+  | OWaitIdle => unit_ wait_until_idle
+  | _ => None
+  end.
 
 Definition drv (ft : feat) : driver :=
-  mkDriver WIDTH HEIGHT false d0 init exec.
+  mkDriver WIDTH HEIGHT false (mkD cWhite 0 false false 0 None) init exec.
 End Epd7in5_v2.
